@@ -8,6 +8,30 @@ VERIF = os.path.dirname(os.path.dirname(os.path.abspath(__file__)))
 SEEDED = os.path.join(VERIF, 'seeded')
 
 NEEDS = {
+    'C01-r2m1': 'any ellipsoidal height below 0 (quantifier goes to -11 km); altitude computed as a distance (hypot)',
+    'C01-r2m2': 'rare inputs at |latitude| >= 57.3 deg for which the latitude iteration 2-cycles between adjacent doubles (EPSILON below one ulp): the call never returns',
+    'C02-r2m1': 'anchor latitude exactly 0 and a local point with north coordinate 0 (altitude = Z / sin(latitude) is 0/0)',
+    'C02-r2m2': 'anchor height not 0: up/north built from the ellipsoid gradient at the anchor position tilt by e2 sin cos h/N',
+    'C03-r2m1': 'two consecutive calls on one thread with the same latitude and different eccentricities (static cache keyed on the latitude only)',
+    'C03-r2m2': 'latitudes around 58-60 deg (or eccentricity near 0.1): the relaxed stop criterion leaves up to 2e-11 rad',
+    'C04-r2m1': 'a PreconditionedPointSet re-used for a smaller cloud and the overload without a correspondence list',
+    'C04-r2m2': 'a correspondence list that is a proper subset and pairs source i with a different target index',
+    'C05-r2m1': 'a float point type and a problem with cond(J^T J) above about 3e3',
+    'C05-r2m2': 'the aligned overload with a motion that has both a rotation and a sizeable translation',
+    'C07-r2m1': 'setPreconditionner(A1, b1) with b1 != 0 followed by setPreconditionner(A2) on the same object',
+    'C07-r2m2': 'a weighted problem with non-unit weights followed by an unweighted solve of at most as many rows on the same object',
+    'C09-r2m1': 'a homogeneous point type (the normal receives POINT_SIZE entries of the eigenvector matrix)',
+    'C09-r2m2': 'a cloud of exactly k+1 points (lower end of the quantifier)',
+    'C10-r2m1': 'pitch between pi/2 - 1.414e-3 and pi/2 - 1e-3 with a non-zero roll',
+    'C10-r2m2': 'a non-unit quaternion with a non-zero pitch',
+    'C11-r2m1': 'a rigid transform with a tilt below 4.5e-5 rad (|R(2,2) - 1| < 1e-9) that is not an exact z-rotation',
+    'C11-r2m2': 'the combined toPoseAndTwist2D on a pose with non-zero roll or pitch',
+    'C12-r2m1': 'a LeastSquares object used for a larger then a smaller problem (stale buffer rows in the normal matrix)',
+    'C12-r2m2': 'an exactly determined problem solved through the Cholesky path with a non-normal J, covariance read afterwards',
+    'C13-r2m1': 'interval form with two consecutive axes of equal cell count and different lower bounds',
+    'C13-r2m2': 'a negative lower bound that is not a multiple of the resolution (fractional part above 0.5)',
+    'C20-r2m1': 'an oriented box with a zero extent along one of its axes (0/0 in normalised coordinates)',
+    'C20-r2m2': 'the first point of the set holds the maximum of a coordinate (else-if chain from the sentinel seeds)',
     'C14-r2m1': '3D grid and an exact tie between the x and y crossing parameters not larger than the z one (exactly diagonal ray from a cell centre/corner)',
     'C14-r2m2': 'origin exactly on a cell border of an axis along which the ray moves in the negative direction, ray not axis-aligned',
     'C15-r2m1': 'read through the const overload of operator() on a grid that has a non-zero index offset',
